@@ -72,11 +72,24 @@ fn repo_describe() -> String {
     std::process::Command::new("git").args(["-C", "/repo", "describe", "--always", "--dirty"]).output().ok().map(|o| String::from_utf8_lossy(&o.stdout).trim().to_string()).unwrap_or_default()
 }
 
+/// The build profile of this worker (release = optimised with overflow checks and debug assertions,
+/// plain = ordinary release, dev = unoptimised): a replay file is replayed by the same kind of build.
+pub fn build_profile() -> &'static str {
+    let exe = std::env::current_exe().map(|p| p.to_string_lossy().into_owned()).unwrap_or_default();
+    if exe.contains("/target/debug/") {
+        "dev"
+    } else if exe.contains("/target/plain/") {
+        "plain"
+    } else {
+        "release"
+    }
+}
+
 pub fn write_replay(dir: &str, name: &str, sc: &Scenario, oracle: &str, sig: &str, detail: &str, corpus: &mut Corpus, armed: Armed) -> String {
     let _ = std::fs::create_dir_all(dir);
     let out = execute(sc, corpus, armed, &ExecOpts { log_events: true, ..Default::default() });
     let mut s = String::new();
-    s.push_str(&format!("# property {}\n# oracle {oracle}\n# signature {sig}\n# detail {}\n# seed {}\n# repo {}\n# sched_digest {:016x}\n# result_digest {:016x}\n", sc.prop, detail.replace('\n', " "), sc.seed, repo_describe(), out.sched_digest, out.result_digest));
+    s.push_str(&format!("# property {}\n# oracle {oracle}\n# signature {sig}\n# detail {}\n# seed {}\n# repo {}\n# profile {}\n# sched_digest {:016x}\n# result_digest {:016x}\n", sc.prop, detail.replace('\n', " "), sc.seed, repo_describe(), build_profile(), out.sched_digest, out.result_digest));
     s.push_str(&sc.text());
     s.push_str("# ---- history of the minimised run\n");
     for e in &out.events {
